@@ -35,6 +35,8 @@ MODS = [
     ("with_fragment", "new"), ("with_fragment", "n w#?é"), ("with_fragment", ""), ("with_fragment", None),
     ("with_query", {"a": "1"}), ("with_query", None), ("update_query", {"z": "9"}), ("extend_query", "e=1"), ("without_query_params", "k"),
     ("with_path", "/new p", {}), ("with_path", "/new", {"keep_query": True}), ("with_path", "/new", {"keep_fragment": True}), ("with_path", "", {"keep_query": True, "keep_fragment": True}),
+    ("with_path", "/new%20p", {"encoded": True, "keep_query": True, "keep_fragment": True}), ("with_path", "/new", {"encoded": True, "keep_query": True}),
+    ("with_path", "/new", {"encoded": True, "keep_fragment": True}), ("with_path", "/new", {"encoded": True}),
     ("with_name", "n m", {}), ("with_name", "nm", {"keep_query": True, "keep_fragment": True}),
     ("with_suffix", ".x y", {}), ("with_suffix", "", {"keep_query": True}),
     ("div", "seg ment"), ("joinpath", ["s1", "s 2"]), ("parent",), ("origin",), ("relative",),
@@ -159,8 +161,10 @@ def check_mod(ctx, backend, base, mod, enumerated=False):
         ef = fb["raw_fragment"] if kw.get("keep_fragment") else ""
         ctx.check(fr["raw_query_string"] == eq and fr["raw_fragment"] == ef, "path operation must clear query/fragment unless keep_* is given",
                   observed=[fr["raw_query_string"], fr["raw_fragment"]], expected=[eq, ef], entry=e)
-        if name == "with_path":
+        if name == "with_path" and not kw.get("encoded"):
             ctx.check(R.path == (a[0] or "/"), "with_path: path does not read back", observed=R.path, expected=a[0] or "/", entry=e)
+        elif name == "with_path":
+            ctx.check(R.raw_path == a[0], "with_path(encoded=True): raw path is not the argument", observed=R.raw_path, expected=a[0], entry=e)
         elif name == "with_name":
             ctx.check(R.name == a[0] and R.raw_parts[:-1] == (B.raw_parts[:-1] if len(B.raw_parts) > 1 else B.raw_parts), "with_name changed more than the last segment",
                       observed=list(R.raw_parts), expected=list(B.raw_parts), entry=e)
